@@ -109,9 +109,9 @@ PROPS = {
     "C09": {
         "lean": ["Knut.Properties.C09", "Knut.Properties.C09Decimal", "Knut.Properties.C09Text", "Knut.Properties.C09Journal"],
         "level": "proof",
-        "claim": "Proof (all three clauses, for every printable journal, on the model of the commands for a journal that is one file) + full correspondence. Properties/C09Journal.lean: C09_print_accepted (the printed text loads and the checker gives the reloaded journal the verdict of the original), C09_print_fixpoint / C09_print_rejected (knut print on the printed text of an accepted printable journal writes that text; a rejected one stays rejected), C09_print_idempotent(_bytes) (print is idempotent on its own output), C09_reports_equal (knut balance under ANY flag vector, valued or not, no restriction on price directives, gives the same bytes or fails alike on the directives loaded from the printed text and on the directives the journal was built from), C09_verdict_equal. Printable (PrintableDir / PrintableJournal, decidable) = what the journal syntax can carry: dates 0001..9999, names of Unicode letters/digits, decimal amounts, assertions with at least one balance, descriptions without a double quote, transactions as transaction.Create builds them. Open: that every directive the loader returns from an arbitrary text is printable is proved for the booking normal form only (C09_text_loaded_normal_form), the field-level converse (scanner classes => PrintableDir) is not mechanised; include trees are outside printFile (C05 covers layout independence). Proved (all bookings, all amounts): C09_booking_normal_form (rebuilding the booking that print writes from the debit-side posting yields "
+        "claim": "Proof (all three clauses, for every printable journal, on the model of the commands for a journal that is one file) + full correspondence. Properties/C09Journal.lean: C09_print_accepted (the printed text loads and the checker gives the reloaded journal the verdict of the original), C09_print_fixpoint / C09_print_rejected (knut print on the printed text of an accepted printable journal writes that text; a rejected one stays rejected), C09_print_idempotent(_bytes) (print is idempotent on its own output), C09_reports_equal (knut balance under ANY flag vector, valued or not, no restriction on price directives, gives the same bytes or fails alike on the directives loaded from the printed text and on the directives the journal was built from), C09_verdict_equal. Printable (PrintableDir / PrintableJournal, decidable) = what the journal syntax can carry: dates 0000..9999, names of Unicode letters/digits, decimal amounts, assertions with at least one balance, descriptions without a double quote, transactions as transaction.Create builds them. Open: that every directive the loader returns from an arbitrary text is printable is proved for the booking normal form only (C09_text_loaded_normal_form), the field-level converse (scanner classes => PrintableDir) is not mechanised; include trees are outside printFile (C05 covers layout independence). Proved (all bookings, all amounts): C09_booking_normal_form (rebuilding the booking that print writes from the debit-side posting yields "
                  "the identical posting pair), C09_printed_quantity_nonneg, C09_reprint_same_line, C09_targets_line. Properties/C09Decimal.lean: C09_dec_scaled_roundtrip, C09_dec_string_roundtrip (parseDec (showDec r) = r for every decimal rational), C09_dec_string_shortest, "
-                 "closure of decimals under +, x, negation. Properties/C09Text.lean (text level, all inputs): C09_text_open, C09_text_close, C09_text_price, C09_text_assertion, C09_text_transaction (a printed open/close/price/single- or multi-balance assertion/transaction - any padding, @performance targets, negative bookings via the booking normal form, description without double quote - of printable fields - any Unicode letters/digits, dates 0001..9999, decimal amounts - is loaded back by parser + elaboration as exactly that directive), C09_text_items (a rendering of items parses and loads to the elaboration of their field views), C09_text_decode (UTF-8 decoding of a Lean string inverts utf8EncodeChar, every Char). WHOLE JOURNALS: C09_text_journal_fixpoint - for every printable journal j (PrintableJournal, decidable: days in strictly increasing date order, none empty, every directive under its own date and printable) the text journal.Print writes loads back (parser model, elaboration, transaction.Create) to exactly the directives of j day by day in print order, journal.Builder regroups them into the days of j with the transactions in journal.Sort order, and printing that journal reproduces the text byte for byte; C09_sort_idempotent (transaction.Compare is a total preorder, Std.TransCmp); the hypothesis is what the builder and transaction.Create produce: C09_text_built_shape (every built journal is sorted, without empty days, directives under their own date), C09_text_built_printable, C09_text_printed_perm (the printed directives are a permutation of the directives the journal was built from), C09_text_created_normal_form / C09_text_loaded_normal_form (every transaction Create / the loader returns is in booking normal form, with or without @accrue); exJournal (3 days, all directive kinds, decided printable; the real binary reproduces its text). The printer's quote replacement is JournalPrinter.descText (character-wise), the identity on descriptions without a double quote (descText_id). The same clauses are also decided on every run on the REAL binary: `knut print` output is "
+                 "closure of decimals under +, x, negation. Properties/C09Text.lean (text level, all inputs): C09_text_open, C09_text_close, C09_text_price, C09_text_assertion, C09_text_transaction (a printed open/close/price/single- or multi-balance assertion/transaction - any padding, @performance targets, negative bookings via the booking normal form, description without double quote - of printable fields - any Unicode letters/digits, dates 0000..9999, decimal amounts - is loaded back by parser + elaboration as exactly that directive), C09_text_items (a rendering of items parses and loads to the elaboration of their field views), C09_text_decode (UTF-8 decoding of a Lean string inverts utf8EncodeChar, every Char). WHOLE JOURNALS: C09_text_journal_fixpoint - for every printable journal j (PrintableJournal, decidable: days in strictly increasing date order, none empty, every directive under its own date and printable) the text journal.Print writes loads back (parser model, elaboration, transaction.Create) to exactly the directives of j day by day in print order, journal.Builder regroups them into the days of j with the transactions in journal.Sort order, and printing that journal reproduces the text byte for byte; C09_sort_idempotent (transaction.Compare is a total preorder, Std.TransCmp); the hypothesis is what the builder and transaction.Create produce: C09_text_built_shape (every built journal is sorted, without empty days, directives under their own date), C09_text_built_printable, C09_text_printed_perm (the printed directives are a permutation of the directives the journal was built from), C09_text_created_normal_form / C09_text_loaded_normal_form (every transaction Create / the loader returns is in booking normal form, with or without @accrue); exJournal (3 days, all directive kinds, decided printable; the real binary reproduces its text). The printer's quote replacement is JournalPrinter.descText (character-wise), the identity on descriptions without a double quote (descText_id). The same clauses are also decided on every run on the REAL binary: `knut print` output is "
                  "compared byte for byte with the Lean model of journal.Print, the printed journal is fed back to `knut print` (must be accepted and reproduce itself byte for byte) and "
                  "`knut balance` under a random flag vector must give byte-identical output on original and printed journal.",
         "note": "Trusted: Lean kernel; axioms propext, Classical.choice, Quot.sound; sort.Slice modelled as a stable sort (transactions comparing equal print identically unless their "
